@@ -128,25 +128,27 @@ func modelDiff(a *app.App, inputs []BS, mode app.Mode, asp diffAspects, hooks *d
 		shared.UsePo, shared.PoDir = true, dir
 	}
 	real := app.NewSession(shared, mode, storage)
+	var pred *app.Session
 	if mode.Reuse != "" {
 		real.PeBox = &app.PeBox{}
 		if hooks != nil && len(hooks.prior) > 0 {
-			pred := app.NewSession(shared, mode, storage)
-			pred.Cfg.SessionId = "earlier-session"
+			pred = app.NewSession(shared, mode, storage)
+			pred.Cfg.SessionId = "other-session"
 			pred.PeBox = real.PeBox
-			for _, in := range hooks.prior {
-				if st := pred.Request([]byte(in)); st.Panic != "" || st.Exceeded {
-					// nobody keeps using the objects a panic went through
-					real.PeBox.Pe = nil
-					break
-				}
-			}
 		}
 	}
 	m := model.New(a, mode.PerRequest())
 	seenNodes := map[string]int{}
 	for i, inb := range inputs {
 		in := string(inb)
+		if pred != nil && i < len(hooks.prior) {
+			// the other session's turn on the shared persister
+			if st := pred.Request([]byte(hooks.prior[i])); st.Panic != "" || st.Exceeded {
+				// nobody keeps using the objects a panic went through
+				real.PeBox.Pe = nil
+				pred = nil
+			}
+		}
 		if hooks != nil && hooks.beforeRequest != nil {
 			hooks.beforeRequest(i, real, m)
 		}
